@@ -23,6 +23,7 @@ template <class X> void mm_run(Ctx& c, uint64_t idx) {
     // which slots are NULL: singles, pairs, and occasionally everything
     unsigned shape = (unsigned)(idx % 16); unsigned nullMask;
     if (shape < 5) nullMask = 1u << shape; else if (shape < 15) { static const unsigned pr[10] = {3, 5, 9, 17, 6, 10, 18, 12, 20, 24}; nullMask = pr[shape - 5]; } else nullMask = 31;
+    if (nullMask == 31 && (idx & 16)) inc.userData = nullptr;      // a manager that is all zeros is incomplete too, not "none given"
     if (nullMask & 1) inc.malloc = nullptr; if (nullMask & 2) inc.calloc = nullptr; if (nullMask & 4) inc.realloc = nullptr; if (nullMask & 8) inc.reallocarray = nullptr; if (nullMask & 16) inc.free = nullptr;
     Str s; for (int t = 0; t < 30; t++) { s = gen_uri(r); size_t e; if (dfa_uriref(s, &e)) break; s = "a://h/p?q"; }
     UriBox<X> A, B; if (A.parse(s, &good) != URI_SUCCESS || B.parse("s://h/a/b", &good) != URI_SUCCESS) return;
@@ -67,6 +68,15 @@ template <class X> void mm_run(Ctx& c, uint64_t idx) {
     // the objects are still intact and can be released through the manager that created them
     A.free_members(); B.free_members();
     if (good.outstanding() || good.bad_free) { c.violation("C13", fmt("mm/%s/leak-or-bad-free-after-rejections", X::tag()), good.describe_live() + good.bad_free_note); good.release_all(); }
+    // a manager completed from a malloc/free-only backend: the library's own self test, a call that takes a manager like any other,
+    // must return every block to that backend
+    if (idx % 16 == 8) { Ledger be; UriMemoryManager raw, cm; memset(&raw, 0, sizeof raw); memset(&cm, 0, sizeof cm); raw.malloc = be.mm.malloc; raw.free = be.mm.free; raw.userData = &be;
+        if (uriCompleteMemoryManager(&cm, &raw) == URI_SUCCESS) { int rc; { LibScope ls; rc = uriTestMemoryManager(&cm); } c.evaluations++;
+            if (rc != URI_SUCCESS) c.violation("C13", "mm/completed-manager-fails-self-test", fmt("rc=%d", rc));
+            if (be.outstanding() || be.bad_free) { c.violation("C13", "mm/self-test-of-completed-manager-leaves-backend-blocks", be.describe_live() + " " + be.bad_free_note); be.release_all(); }
+            // and a URI round trip under it
+            UriBox<X> Z; typename X::S wz = widen<X>(s); const Char* ep; int pr; { LibScope ls; pr = X::ParseSingleUriExMm(&Z.u, wz.data(), wz.data() + wz.size(), &ep, &cm); if (pr == URI_SUCCESS) { X::MakeOwnerMm(&Z.u, &cm); X::NormalizeSyntaxExMm(&Z.u, 63, &cm); X::FreeUriMembersMm(&Z.u, &cm); } }
+            if (be.outstanding() || be.bad_free) { c.violation("C13", "mm/completed-manager-leaves-backend-blocks", be.describe_live() + " " + be.bad_free_note); be.release_all(); } } }
     // a complete manager passes
     if (idx % 16 == 0) { int rc = uriTestMemoryManager(good.mgr()); c.evaluations++; if (rc != URI_SUCCESS) c.violation("C13", "mm/complete-manager-fails-self-test", fmt("rc=%d", rc)); if (good.outstanding()) { c.violation("C13", "mm/self-test-leaks", good.describe_live()); good.release_all(); } }
     c.distinct(hash_str(s, nullMask));
